@@ -495,6 +495,9 @@ partial def loop (inp : IO.FS.Stream) (out : IO.FS.Stream) (s : St) : IO Unit :=
     | ["pnew", slot, c] =>
       ((if s.p.on then s else { s with p := { on := true, ps := { useCache := c == "1" } } }),
        "new " ++ slot, ["new", slot])
+    | "pfail" :: k :: rest =>
+      -- the k-th store load of the following operation fails (object-level model only)
+      ({ s with p := { s.p with failNext := k.toNat? } }, " ".intercalate rest, rest)
     | _ => (s, line, toks)
   match pcommand s.p toks with
   | some (p', resp) =>
